@@ -110,23 +110,44 @@ theorem genHeaderOverride_eq (n v : String) (hs : List Header) :
   simp only [genHeaderOverride, overrideAction, this]
   split <;> simp_all [toPair]
 
-/-! ### default -/
+/-! ### default
 
-theorem genHeaderDefaultLoop1_eq (n v : String) (hs : List Header) (found : Bool) :
-    genHeaderDefaultLoop1 lower n v (hs.map toPair) found =
-      (if defaultFound lower n hs then true else found) := by
+Two shapes of the source are accepted by the same statement: the `found` flag loop with `break`
+(`genHeaderDefaultLoop1`) and the iterator form `headers.iter().any(|h| ..)`; the proof tries the first and
+falls back to the second, so this behaviour-preserving refactoring does not raise an alarm. -/
+
+theorem defaultFound_eq_any (n : String) (hs : List Header) :
+    defaultFound lower n hs = hs.any (sameName lower n) := by
   induction hs with
   | nil => rfl
   | cons h t ih =>
-    simp only [List.map_cons, genHeaderDefaultLoop1, defaultFound, beq_sameName]
-    rcases Bool.eq_false_or_eq_true (sameName lower n h) with hc | hc
-    · simp [hc]
-    · simp only [hc, Bool.false_eq_true, if_false]
-      exact ih
+    simp only [defaultFound, List.any_cons]
+    rcases Bool.eq_false_or_eq_true (sameName lower n h) with hc | hc <;> simp [hc, ih]
+
+theorem any_toPair (n : String) (hs : List Header) :
+    (hs.map toPair).any (fun p => lower p.1 == lower n) = hs.any (sameName lower n) := by
+  rw [List.any_map]; rfl
 
 theorem genHeaderDefault_eq (n v : String) (hs : List Header) :
     genHeaderDefault lower n v (hs.map toPair) = (defaultAction lower n v hs).map toPair := by
-  simp only [genHeaderDefault, defaultAction, genHeaderDefaultLoop1_eq]
-  cases defaultFound lower n hs <;> simp [toPair]
+  first
+  | -- the flag loop
+    have hloop : ∀ (hs : List Header) (found : Bool),
+        genHeaderDefaultLoop1 lower n v (hs.map toPair) found =
+          (if defaultFound lower n hs then true else found) := by
+      intro hs found
+      induction hs with
+      | nil => rfl
+      | cons h t ih =>
+        simp only [List.map_cons, genHeaderDefaultLoop1, defaultFound, beq_sameName]
+        rcases Bool.eq_false_or_eq_true (sameName lower n h) with hc | hc
+        · simp [hc]
+        · simp only [hc, Bool.false_eq_true, if_false]
+          exact ih
+    simp only [genHeaderDefault, defaultAction, hloop]
+    cases defaultFound lower n hs <;> simp [toPair]
+  | -- `.iter().any(..)`
+    simp only [genHeaderDefault, defaultAction, any_toPair, defaultFound_eq_any]
+    cases hs.any (sameName lower n) <;> simp [toPair]
 
 end Rio.Header
